@@ -411,6 +411,9 @@ class Basis(np.ndarray):
         basis: Basis
             The Basis object representing the Pauli basis.
         """
+        if n < 1:
+            raise ValueError(f'Expected the number of qubits n to be at least one, not {n}')
+
         normalization = np.sqrt(2**n)
         combinations = np.indices((4,)*n).reshape(n, 4**n)
         sigma = util.tensor(*util.paulis[combinations], rank=2)
@@ -449,6 +452,9 @@ class Basis(np.ndarray):
             41(23). https://doi.org/10.1088/1751-8113/41/23/235303
 
         """
+        if d < 1:
+            raise ValueError(f'Expected the dimension d to be at least one, not {d}')
+
         n_sym = int(d*(d - 1)/2)
         sym_rng = np.arange(1, n_sym + 1)
         diag_rng = np.arange(1, d)
